@@ -73,9 +73,9 @@ type model struct {
 	proc  string               // the engine option (procLess makes vars.less a dependency)
 	armed map[string]armedEdit // file -> edit that fires while (or right after) the next render depending on the file runs
 
-	step      int            // index of the op being applied (set by the caller)
-	lastWrite map[string]int // file -> index of the op that last wrote it (-1: initial content)
-	freshDt   map[string]int // file -> the delta that would have given that write a brand-new mtime
+	step      int              // index of the op being applied (set by the caller)
+	lastWrite map[string]int   // file -> index of the op that last wrote it (-1: initial content)
+	freshDt   map[string]int64 // file -> the delta (ns) that would have given that write a brand-new mtime
 }
 
 func viewIndex(entry string) int {
@@ -88,6 +88,7 @@ func viewIndex(entry string) int {
 // armedEdit is a scripted edit that overlaps a load (see Op "arm").
 type armedEdit struct {
 	v, dt, idx int
+	ns         int64
 	zero       bool
 }
 
@@ -99,7 +100,7 @@ const storeOverlayMixed = "overlay-mixed"
 // that is deleted or unreadable in the upper layer shows its lower version.
 var lowerLayer = map[string]int{fPage: 2, fComp: 2, fMain: 2}
 
-const lowerMt = int64(50)
+const lowerMt = 50 * sec
 
 // eff is the state of f as the engines see it.
 func (m *model) eff(f string) (exists bool, v int, mt int64) {
@@ -123,7 +124,7 @@ func newModel(c Case) (*model, error) {
 	if c.Store != "" && c.Store != storeOverlayMixed {
 		return nil, fmt.Errorf("harness: unknown store %q", c.Store)
 	}
-	m := &model{st: map[string]*fstate{}, views: [2]*view{newView(), newView()}, lastWrite: map[string]int{}, freshDt: map[string]int{},
+	m := &model{st: map[string]*fstate{}, views: [2]*view{newView(), newView()}, lastWrite: map[string]int{}, freshDt: map[string]int64{},
 		store: c.Store, proc: c.Proc, armed: map[string]armedEdit{}}
 	for _, f := range allFiles {
 		m.st[f] = &fstate{mt: t0, realMt: t0, maxMt: t0}
@@ -157,9 +158,9 @@ func getVariant(file string, v int) (variant, error) {
 	return vs[v], nil
 }
 
-// newMtime is the mtime a write with delta dt gives the file (never below 1 s).
-func (m *model) newMtime(file string, dt int) int64 {
-	mt := m.st[file].realMt + int64(dt)
+// newMtime is the mtime (ns) a write with delta dt seconds + ns nanoseconds gives the file.
+func (m *model) newMtime(file string, dt int, ns int64) int64 {
+	mt := m.st[file].realMt + int64(dt)*sec + ns
 	if mt < 1 {
 		mt = 1 // a zero mtime ("unknown") is only produced on purpose, by Op.Z
 	}
@@ -167,10 +168,10 @@ func (m *model) newMtime(file string, dt int) int64 {
 }
 
 // write applies a write op and returns labels describing it.
-func (m *model) write(file string, v, dt int, zero bool) (kind, mtClass string) {
+func (m *model) write(file string, v, dt int, ns int64, zero bool) (kind, mtClass string) {
 	f := m.st[file]
 	vr := variants[file][v]
-	mt := m.newMtime(file, dt)
+	mt := m.newMtime(file, dt, ns)
 	if zero {
 		mt = 0
 	}
@@ -188,6 +189,8 @@ func (m *model) write(file string, v, dt int, zero bool) (kind, mtClass string) 
 		mtClass = "mtime:real-to-zero"
 	case f.mt == 0:
 		mtClass = "mtime:zero-to-real"
+	case mt != f.mt && mt/sec == f.mt/sec:
+		mtClass = "mtime:changed-within-the-same-second"
 	case mt > f.mt:
 		mtClass = "mtime:advance"
 	case mt == f.mt:
@@ -196,7 +199,7 @@ func (m *model) write(file string, v, dt int, zero bool) (kind, mtClass string) 
 		mtClass = "mtime:backwards"
 	}
 	m.lastWrite[file] = m.step
-	m.freshDt[file] = int(f.maxMt + 1 - f.realMt)
+	m.freshDt[file] = (f.maxMt/sec+1)*sec - f.realMt // the next whole second nothing has used yet
 	changed := !f.exists || f.v != v
 	f.lastDt0 = mt == f.mt && changed
 	f.exists, f.v, f.mt = true, v, mt
@@ -239,7 +242,7 @@ func (m *model) apply(i int, op Op) ([]string, error) {
 		if _, err := getVariant(op.File, op.V); err != nil {
 			return nil, err
 		}
-		kind, mtClass := m.write(op.File, op.V, op.Dt, op.Z)
+		kind, mtClass := m.write(op.File, op.V, op.Dt, op.Ns, op.Z)
 		return []string{"op:" + kind + ":" + op.File, mtClass}, nil
 	case op.Op == "delete":
 		m.remove(op.File)
@@ -248,7 +251,7 @@ func (m *model) apply(i int, op Op) ([]string, error) {
 		if _, err := getVariant(op.File, op.V); err != nil {
 			return nil, err
 		}
-		m.armed[op.File] = armedEdit{op.V, op.Dt, i, op.Z}
+		m.armed[op.File] = armedEdit{op.V, op.Dt, i, op.Ns, op.Z}
 		return []string{"op:arm-edit-overlapping-a-load:" + op.File}, nil
 	case op.Op == "block":
 		f := m.st[op.File]
@@ -288,7 +291,7 @@ func (m *model) fire(f string) (pre preState) {
 	pre = preState{h: held{mt, v}, existed: ex, loadable: ex && variants[f][v].LoadOK}
 	step := m.step
 	m.step = a.idx // for the known-finding bookkeeping the arm op is the write
-	m.write(f, a.v, a.dt, a.zero)
+	m.write(f, a.v, a.dt, a.ns, a.zero)
 	m.step = step
 	return pre
 }
@@ -559,7 +562,7 @@ const findingBase = "C15-stale-default-layout-after-existence-check"
 // offendingWrite simulates the history on the model alone and returns the index of the first
 // write that leads to a compared render in the region of an open known finding (and the delta
 // that gives that write a brand-new mtime instead, and the finding), or -1.
-func offendingWrite(c Case, avoid map[string]bool) (int, int, string) {
+func offendingWrite(c Case, avoid map[string]bool) (int, int64, string) {
 	m, err := newModel(c)
 	if err != nil {
 		return -1, 0, ""
@@ -614,7 +617,7 @@ func sanitize(c Case, avoid map[string]bool) (Case, []string) {
 			break
 		}
 		ops := append([]Op(nil), c.Ops...)
-		ops[idx].Dt, ops[idx].Z = dt, false
+		ops[idx].Dt, ops[idx].Ns, ops[idx].Z = 0, dt, false
 		c = Case{Init: c.Init, Ops: ops, Proc: c.Proc, Store: c.Store, ZeroInit: c.ZeroInit}
 		n = append(n, id)
 	}
